@@ -35,8 +35,8 @@ def run(prop, tier, seed, ctx):
     cases += list(enumerate(sim))
     patterns = ["default"] if tier == "quick" else ["default", "custom"]
     mism = shard_map("bind.sections", "replay_chunk", cases, extra={"patterns": patterns})
-    ctx.cov["replayed_cases"] += len(cases) * 3 * len(patterns)
-    ctx.cov["traces_validated_against_impl"] += len(cases) * 3 * len(patterns)
+    ctx.cov["replayed_cases"] += len(cases) * 4 * len(patterns)
+    ctx.cov["traces_validated_against_impl"] += len(cases) * 4 * len(patterns)
     ctx.count(len(cases), (json.dumps([r["file"], r["mode"], [h["a"] for h in r["hist"]]]) for _, r in cases if "M" in r["file"]))
     mid = res.records[len(res.records) // 2]
     ctx.sample({"kind": "behaviour", "file": mid["file"], "mode": mid["mode"], "actions": [h["a"] for h in mid["hist"]]})
